@@ -22,7 +22,6 @@ import (
 	"io/fs"
 	"os"
 	"path/filepath"
-	"runtime"
 	"sort"
 	"strings"
 	"sync"
@@ -533,11 +532,9 @@ func (w *watch) watch(fsw *fsnotify.Watcher, m *sync.Mutex, refresh func() error
 		return
 	}
 
-	eventMask := fsnotify.Rename | fsnotify.Remove | fsnotify.Write
-	// On macOS, we also need to watch for Create events.
-	if runtime.GOOS == "darwin" {
-		eventMask |= fsnotify.Create
-	}
+	// Create events are needed, too: a Spec file moved or hard-linked into a
+	// Spec directory (or created empty) does not generate any other event.
+	eventMask := fsnotify.Rename | fsnotify.Remove | fsnotify.Write | fsnotify.Create
 
 	for {
 		select {
